@@ -8,10 +8,22 @@ from props.common import *
 from props.parts import desref as R
 
 PREFIX = ('des.', 'tdea.')
-LEAN_PROOFS = ['Proofs.C02_Des']
+LEAN_PROOFS = ['Proofs.C02_Des',
+               # sanity of the specification itself (structure of the FIPS 46-3 tables, published known answers in the kernel)
+               'Proofs.C02_DesSpec', 'Proofs.C02_DesSpec.Kat', 'Proofs.C02_DesSpec.Weak',
+               'Proofs.C02_DesSpec.SboxKat1', 'Proofs.C02_DesSpec.SboxKat2', 'Proofs.C02_DesSpec.SboxKat',
+               'Proofs.C02_DesSpec.SboxCover0', 'Proofs.C02_DesSpec.SboxCover1', 'Proofs.C02_DesSpec.SboxCover2',
+               'Proofs.C02_DesSpec.SboxCover3', 'Proofs.C02_DesSpec.SboxCover']
 GEN_ITEMS = ['Des']
 TRUSTED = ['Spec.Des is a hand rendering of FIPS 46-3 / SP 800-67 (tables typed from the standard; validated against published '
-           'known-answer vectors through the driver echo and against props/parts/desref.py on every explored input)']
+           'known-answer vectors through the driver echo and against props/parts/desref.py on every explored input). Shrunk by Proofs.C02_DesSpec '
+           '(kernel): IP/IP^-1 are mutually inverse permutations and follow their generating pattern, E and PC-1 equal their generating rule, P is a permutation of '
+           '1..32, PC-2 picks 48 distinct positions omitting exactly 9,18,22,25,35,38,43,54, every S-box row is a permutation of 0..15, shifts sum to 28; '
+           'Spec.Des reproduces the classic 133457799BBCDFF1 example with its K1/K16, three NBS vectors, weak/semi-weak key and complementation behaviour, and all 19 '
+           'vectors of the NBS SP 500-20 S-box test, whose encipherings are proved to look up every one of the 8x64 S-box entries. Still trusted: that P, the order '
+           'of PC-2 and the S-box rows are the standard\'s (not merely some) permutations - evidenced only by those known answers; the 19 NBS vectors are typed from memory of the publication']
+LEVEL_NOTE = ('Spec.Des itself is checked: structural theorems on every FIPS 46-3 table and published known answers (classic example, NBS S-box test with '
+              'proved full S-box coverage) evaluated through Spec.Des in the kernel (Proofs.C02_DesSpec*).')
 ASSUMPTIONS = ['DES/TDEA keys and blocks are bytes objects (python lists/ints handed to Bits() are out of scope)']
 
 
